@@ -1033,6 +1033,48 @@ def gen_try_sched(rng):
     return p
 
 
+def gen_try_indep(rng):
+    """a try_except-wrapped sub-graph with TWO independent branches: the result `out` is computed from $1 by nodes that
+    do not depend on the thrower (which reads $0) - mostly ranked before it, so `out` ticks in the very cycle the
+    thrower fails - and a downstream node outside samples `out` when an unrelated input ticks (also after a failing
+    cycle): a captured failure must neither eat the independent result of the failing cycle nor make it unreadable"""
+    p = Prog()
+    p.end = p.start + rng.choice([16, 22])
+    for k in (901, 903):
+        p.ticks[k] = gen_ticks(rng, p.start, rng.randint(3, 8), 12)
+        if p.ticks[k][0][0] != p.start:       # valid from the first cycle on (keeps the known finding F2 out of this stream)
+            p.ticks[k].insert(0, (p.start, rng.randint(1, 5)))
+    p.ticks[905] = gen_ticks(rng, p.start, rng.randint(2, 7), 14)
+    p.faults[77] = ["e%d" % k for k in sorted(rng.sample(range(1, 7), rng.randint(1, 3)))]
+    chain, prev, lbl = [], "$1", 20
+    for _ in range(rng.randint(1, 3)):
+        chain.append(Stmt(lbl, rng.choice(["pass", "acc", "acc"]), [prev])); prev = str(lbl); lbl += 1
+    out = prev
+    # mostly the thrower sits deeper than every node of the independent branch, so the rank pass (Kahn, FIFO) puts it
+    # last and the whole independent branch has run when it throws; otherwise the nodes ranked AFTER the failing node
+    # belong to the failing unit of that cycle (ASSUMPTIONS of C15; the reference reads it that way)
+    thr, tin, tl = [], "$0", 30
+    for _ in range(len(chain) + rng.randint(0, 1) if rng.random() < 0.75 else rng.randint(0, len(chain))):
+        thr.append(Stmt(tl, "pass", [tin])); tin = str(tl); tl += 1
+    thr.append(Stmt(10, "thrower", [77, tin]))
+    if rng.random() < 0.4:
+        thr.append(Stmt(11, "sink", [10]))
+    sub = kahn_order(chain + thr if rng.random() < 0.5 else thr + chain)
+    p.subs[1] = [2, sub, out]
+    body = [Stmt(1, "src", [901]), Stmt(7, "src", [903]), Stmt(2, "tryx", [1, 1, 7]),
+            Stmt(3, "tryout", [2]), Stmt(4, "tryerr", [2]), Stmt(5, "sink", [3]),
+            Stmt(6, "src", [905]), Stmt(12, "sink", [8])]
+    r = rng.random()        # the sampler: woken by the unrelated input (and mostly not by `out`), needs `out` valid or not
+    if r < 0.3:
+        body.append(Stmt(8, "add", [6, 3]))
+    elif r < 0.75:
+        body.append(Stmt(8, "gate", [6, "~3", "VV"]))
+    else:
+        body.append(Stmt(8, "gate", [6, rng.choice(["3", "~3"]), "VU"]))
+    p.root = kahn_order(body)
+    return p
+
+
 def gen_nscript(rng):
     """a NATIVE scheduler node with two required-valid inputs (the second mostly passive and late): wake-ups booked
     in the start hook or earlier evaluations must survive evaluations in which the readiness gate holds the node
